@@ -433,6 +433,14 @@ class Path:
         return [c[1] for c in self.calls]
 
 
+STD_ENUMS = {
+    'core::option::Option': ['None', 'Some'],
+    'core::result::Result': ['Ok', 'Err'],
+    'core::ops::control_flow::ControlFlow': ['Continue', 'Break'],
+    'core::cmp::Ordering': None,
+}
+
+
 class AbsInt:
     def __init__(self, facts, fn, init_env=None, stop_blocks=(), loop_bound=2, max_paths=20000,
                  decide_call=None):
@@ -450,6 +458,9 @@ class AbsInt:
     def discr_value(self, enum_path, variant):
         a = self.facts.adts.get(enum_path)
         if not a:
+            vs = STD_ENUMS.get(enum_path)
+            if vs and variant in vs:
+                return vs.index(variant)
             return None
         for i, v in enumerate(a['variants']):
             if v['name'] == variant:
@@ -459,6 +470,9 @@ class AbsInt:
     def variant_of_discr(self, enum_path, d):
         a = self.facts.adts.get(enum_path)
         if not a:
+            vs = STD_ENUMS.get(enum_path)
+            if vs and 0 <= d < len(vs):
+                return vs[d]
             return None
         for i, v in enumerate(a['variants']):
             dv = v['discr'] if v['discr'] is not None else i
@@ -536,6 +550,8 @@ class AbsInt:
     def eval_op(self, env, op):
         k = op['k']
         if k == 'const':
+            if 'promoted' in op:
+                return self.eval_promoted(env, op['promoted'])
             if 'variant' in op:
                 return ('enum', op['ty'], op['variant'])
             if 'fn' in op:
@@ -548,6 +564,44 @@ class AbsInt:
         if k in ('copy', 'move'):
             return self.read_place(env, op['place'])
         return ('unknown', op.get('text'))
+
+    def eval_promoted(self, env, idx):
+        """value of a promoted constant: evaluate its (straight-line) body once"""
+        key = '$promoted%d' % idx
+        if key + '._0' in env:
+            return env[key + '._0']
+        proms = self.fn.j.get('promoted') or []
+        pj = next((p for p in proms if p['i'] == idx), None)
+        if pj is None:
+            return ('const', 'promoted[%d]' % idx, '?')
+        penv = {}
+        b = 0
+        for _ in range(64):
+            bl = pj['blocks'][b]
+            for st in bl['stmts']:
+                if st['k'] == 'assign':
+                    val = self.eval_rv(penv, st['rv'], ('promoted', idx))
+                    penv[self.resolve_key(penv, st['place'])] = val
+            t = bl['term']
+            if t['k'] == 'goto':
+                b = t['target']
+                continue
+            if t['k'] == 'call' and t['target'] is not None:
+                argvals = tuple(self.eval_op(penv, a) for a in t['args'])
+                penv[self.resolve_key(penv, t['dest'])] = ('call', callee_name(t), argvals, -1)
+                b = t['target']
+                continue
+            break
+        res = penv.get('_0', ('const', 'promoted[%d]' % idx, '?'))
+        # re-home the promoted's locals into the caller's environment under a private prefix
+        for k, v in penv.items():
+            env[key + '.' + k] = self._rehome(v, key)
+        return self._rehome(res, key)
+
+    def _rehome(self, v, prefix):
+        if isinstance(v, tuple) and v and v[0] == 'ref' and isinstance(v[1], str) and v[1].startswith('_'):
+            return ('ref', prefix + '.' + v[1])
+        return v
 
     def eval_rv(self, env, rv, where):
         k = rv['k']
@@ -714,6 +768,8 @@ class AbsInt:
                             taken = {x for x, _ in targets}
                             a = self.facts.adts.get(v[2])
                             rest = []
+                            if not a and STD_ENUMS.get(v[2]):
+                                rest = [n for i, n in enumerate(STD_ENUMS[v[2]]) if i not in taken]
                             if a:
                                 for i, vv in enumerate(a['variants']):
                                     dv = vv['discr'] if vv['discr'] is not None else i
@@ -820,3 +876,21 @@ def ret_exprs(facts, fn, init_env=None, **kw):
     if ai.truncated:
         raise CheckerError('path enumeration truncated in %s' % fn.path)
     return out
+
+
+def simp(v):
+    """rewrite the `?` desugaring: downcast(branch(X), Continue).0 -> ('okval', X);
+    from_residual(downcast(branch(X), Break).0) -> ('errof', X)"""
+    if not isinstance(v, tuple):
+        return v
+    if v and v[0] == 'field' and isinstance(v[1], tuple) and v[1][0] == 'downcast' and v[2] == '0':
+        inner = v[1][1]
+        if isinstance(inner, tuple) and inner[0] == 'call' and inner[1].endswith('Try>::branch'):
+            x = simp(inner[2][0])
+            return ('okval', x) if v[1][2] == 'Continue' else ('errval', x)
+    if v and v[0] == 'call' and 'from_residual' in v[1]:
+        a = simp(v[2][0])
+        if a[0] == 'errval':
+            return ('errof', a[1])
+        return ('errof', a)
+    return tuple(simp(x) if isinstance(x, tuple) else x for x in v)
